@@ -69,6 +69,33 @@ def snap(e):
     return [k, rd_tag(e.tag), rd_tempo(e)] + [snap(c) for c in e]
 
 
+def deep(e):
+    """derived time data of every container, DFS order (same rule as driver.ml)"""
+    if isinstance(e, C):
+        return []
+    if isinstance(e, S):
+        st = [ticks(x) for x in e.absolute_time_tuple]
+        fl = [round(x * TICK) for x in e.absolute_time_in_floats_tuple]
+        d = ticks(e.duration)
+        q = sorted(set([y for s_ in st for y in (s_ - 1, s_, s_ + 1)] + [-1, d - 1, d, d + 1]))
+        idx = []
+        for x in q:
+            i = e.get_event_index_at(x / TICK)
+            evx = e.get_event_at(x / TICK)
+            if (i is None) != (evx is None) or (i is not None and evx is not e[i]):
+                idx.append("event-at-differs")
+            else:
+                idx.append("none" if i is None else i)
+        node = ["s", d, st if fl == st else ["floats-differ"] + fl,
+                [[ticks(r.start), ticks(r.end)] for r in e.start_and_end_time_per_event], idx]
+    else:
+        node = ["p", ticks(e.duration)]
+    out = [node]
+    for c in e:
+        out += deep(c)
+    return out
+
+
 def err(exc):
     return ["err", type(exc).__name__]
 
@@ -206,6 +233,15 @@ def run(case):
                 break
             out.append(["ok", snap(t)])
         return out
+    if k == "c01":
+        t = build(case[1])
+        pre = ["pre"] + deep(t)
+        for op in case[2:]:
+            try:
+                t, _ = apply_op(t, op)
+            except Exception as e:  # noqa
+                return ["c01", pre, err(e)]
+        return ["c01", pre, ["post"] + deep(t), snap(t)]
     raise ValueError(f"unknown case {case}")
 
 
